@@ -404,7 +404,17 @@ func nativeReplay(results []*symx.CaseResult) (*replayReport, error) {
 	if len(raceCases) > 0 {
 		rs, err := runBatch(dir, "race", raceCases, true)
 		if err != nil {
-			return nil, err
+			// the race-detector run could not be performed: every write/race
+			// finding stays unconfirmed (listed known findings are tolerated)
+			for ci, rc := range raceCases {
+				for wi := range rc.Witnesses {
+					rf := raceRefs[ci][wi]
+					msg := fmt.Sprintf("%s %s/%s: race-detector run failed: %v", rf.res.Spec, rf.viol.Case, rf.viol.ID, firstLine(err.Error()))
+					rep.unconfirmed = append(rep.unconfirmed, msg)
+					rep.unconfirmedV = append(rep.unconfirmedV, confirmedViolation{Spec: rf.res.Spec, V: rf.viol, Native: "race-run-failed", Detail: msg})
+				}
+			}
+			rs = nil
 		}
 		// the race detector reports each distinct pair of stacks once per
 		// process: a site confirmed for one witness counts for the others
